@@ -342,7 +342,7 @@ static void components_case(Result &r, bool same_step, long nsteps)
       "colvar {\n name s\n distance {\n componentCoeff 1.5\n group1 { atomNumbers 1 }\n group2 { atomNumbers 2 }\n }\n"
       " distance {\n componentCoeff -2.0\n group1 { atomNumbers 3 }\n group2 { atomNumbers 4 }\n }\n}\n"
       "harmonic {\n name h\n colvars s\n centers 0.5\n forceConstant 2.0\n}\n";
-  if (px->config(conf) != 0) { fprintf(stderr, "HARNESS-ERROR: part 2 components configuration rejected: %s\n", px->errtxt.c_str()); _exit(2); }
+  if (px->config(conf) != 0) { fprintf(stderr, "HARNESS-ERROR: part 2 components configuration rejected: %s\n", px->errtxt.c_str()); _exit(3); }
   if (cvs(*px, W({"cv", "colvar", "s", "set", "collect_gradient", "1"})).rc != 0) { fprintf(stderr, "HARNESS-ERROR: collect_gradient\n"); _exit(2); }
   bool on2 = true;
   auto bad = [&](long st, std::string const &what, std::string const &got, std::string const &want) {
@@ -413,7 +413,7 @@ void part2(std::vector<Scn> const &scs, Args const &args, Result &total)
         if (jb.si < 0) { components_case(rr, jb.same, std::max<long>(nsteps, 6)); return; }
         Scn const &sc = scs[jb.si];
         vproxy *px = new_px(sc, jb.same);
-        if (px->config(all_conf(sc)) != 0) { fprintf(stderr, "HARNESS-ERROR: part 2 configuration rejected: %s\n", px->errtxt.c_str()); _exit(2); }
+        if (px->config(all_conf(sc)) != 0) { fprintf(stderr, "HARNESS-ERROR: part 2 configuration rejected: %s\n", px->errtxt.c_str()); _exit(3); }
         // gradients of the first (scalar) variable are collected on request
         SR g = cvs(*px, W({"cv", "colvar", sc.cvn[0], "set", "collect_gradient", "1"}));
         // atom lists of a variable are kept only on request (feature collect_atom_ids)
@@ -428,7 +428,7 @@ void part2(std::vector<Scn> const &scs, Args const &args, Result &total)
           place(*px, e0 + s);
           std::vector<cvm::rvector> ptb = px->prev_total;
           int rc = px->step(e0 + s);
-          if (rc != 0) { fprintf(stderr, "HARNESS-ERROR: part 2 step failed: %s\n", px->errtxt.c_str()); _exit(2); }
+          if (rc != 0) { fprintf(stderr, "HARNESS-ERROR: part 2 step failed: %s\n", px->errtxt.c_str()); _exit(3); }
           rr.count("transitions");
           Ctx c{&rr, &sc, px, s, jb.same, jb.variant, ptb, abs0};
           std::string before = observe(*px);
